@@ -576,7 +576,7 @@ class Recorder:
                       types.SimpleNamespace(FileStorage=types.SimpleNamespace(packed_version=ZODB.FileStorage.packed_version,
                                                                               FileStorage=storage)))
 
-    def run(self, inp, outp, size, timeout=30):
+    def run(self, inp, outp, size, timeout=6):
         """-> (events, how the run ended: 'end' | 'die' | 'hang' | 'crash:<Exception>')"""
         import contextlib
         import io
@@ -737,7 +737,10 @@ def recover_cases(job):
     rec = Recorder()
     inp, outp = os.path.join(wd, 'in.fs'), os.path.join(wd, 'out.fs')
     res = []
+    wall_hangs = 0
     for dmg in damages:
+        if wall_hangs >= 2:
+            break                       # the watchdog fired twice in this batch: reported; do not wait for the rest
         damaged = damage_bytes(data, dmg, seed)
         with open(inp, 'wb') as f:
             f.write(damaged)
@@ -750,6 +753,7 @@ def recover_cases(job):
                 outtx = parse_fs(f.read(), tolerant=True)
         except FileNotFoundError:
             outtx = []
+        wall_hangs += how == 'hang' and not (events and events[-1][0] == 'scan' and events[-1][2] == -1)
         run, srcs, ncopy = project_run(txns, data, dmg, damaged, events, how, outtx)
         run['f'] = fidx + 1
         r = {'run': run, 'dmg': dmg, 'how': how, 'dot8': b'.' in damaged[-8:], 'nout': len(outtx), 'ncopy': ncopy, 'table': None,
